@@ -1,9 +1,54 @@
 (* C16 — Results contain only documented types, consistent with the decoder mode. *)
 From Coq Require Import List ZArith NArith Bool.
-From OgRek Require Import Base Value Reader Decoder DecoderFacts.
+From Coq.Strings Require Import Byte.
+From OgRek Require Import Base Value Reader Decoder TypingFacts.
 Import ListNotations.
-(* placeholder until the typing invariant is proved: the only fact used here is C04's *)
-Theorem C16_partial_no_panic :
-  forall cfg st inp,
-    fst (fst (decode cfg st inp)) <> Panic /\ fst (fst (decode cfg st inp)) <> OutOfFuel.
-Proof. exact decode_safe. Qed.
+
+(* wt cfg v : v is one of the documented result types for the mode cfg - None, bool, int64 (in
+   range), *big.Int, float64, string, ByteString (only with StrictUnicode), Bytes, []byte, []any,
+   Tuple, builtin map (only with PyDict off) / Dict (only with PyDict on), Class, Call, Ref, an
+   object returned by PersistentLoad - recursively; never the stack marker, never an unsigned or
+   complex number.  state_ok: every stack cell is the marker or well typed; memo, heap objects and
+   every Ref handed to PersistentLoad are well typed (so the marker never reaches any of them).
+   load_ok: what the user's PersistentLoad returns is itself a documented value. *)
+
+(* For every byte string, every configuration and every well-typed decoder state: a successful
+   Decode returns a well-typed value and leaves a well-typed state behind. *)
+Theorem C16_result_typed :
+  forall cfg, load_ok cfg ->
+  forall st inp r st' rest,
+    state_ok cfg st -> decode cfg st inp = ((r, st'), rest) ->
+    state_ok cfg st' /\ (forall v, r = Ok v -> wt cfg v = true).
+Proof. exact decode_typed. Qed.
+Print Assumptions C16_result_typed.
+
+(* ... hence for every stream of Decode calls on a fresh Decoder *)
+Theorem C16_stream_typed :
+  forall cfg, load_ok cfg ->
+  forall inp,
+    Forall (fun rs => (forall v, fst rs = Ok v -> wt cfg v = true) /\ state_ok cfg (snd rs))
+           (decode_stream cfg inp).
+Proof.
+  intros cfg L inp. unfold decode_stream.
+  apply (decode_all_typed cfg L). apply state_ok_init.
+Qed.
+Print Assumptions C16_stream_typed.
+
+(* the marker, ByteString without StrictUnicode, Dict without PyDict, map with PyDict are excluded *)
+Example C16_what_wt_excludes :
+  let c00 := Build_dconfig false false None in let c11 := Build_dconfig true true None in
+  wt c00 VMark = false /\ wt c11 (VTuple [VInt 1; VMark]) = false /\
+  wt c00 (VBStr []) = false /\ wt c11 (VBStr []) = true /\
+  wt c00 (VDict 0%N) = false /\ wt c11 (VMap 0%N) = false /\ wt c00 (VMap 0%N) = true /\
+  wt c00 (VRef (VList 0%N [VMark])) = false /\ wt c00 (VUser 0%N) = false.
+Proof. vm_compute. repeat split. Qed.
+
+(* non-vacuity: the premises hold for the fresh decoder and a concrete successful decode *)
+Example C16_nonvacuous :
+  let cfg := Build_dconfig true true None in
+  load_ok cfg /\ state_ok cfg init_state /\
+  exists v st', decode cfg init_state [x28; x4b; x01; x55; x01; x61; x64; x2e] = ((Ok v, st'), []).
+Proof.
+  split; [intros f E; discriminate|]. split; [apply state_ok_init|].
+  eexists. eexists. vm_compute. reflexivity.
+Qed.
